@@ -681,7 +681,19 @@ func (c *FnCtx) appendSlice(st *State, s, t Val, pos token.Pos) Val {
 	// append(nil, nothing) stays nil
 	res = Ite("(and (= (s-arr "+s.E+") 0) (= "+n+" 0))", s.E, res)
 	c.eng.onAlloc(c, st, fresh, nil)
-	return Val{T: s.T, E: c.sc.Define("ap", sSlice, res)}
+	rv := c.sc.Define("ap", sSlice, res)
+	if ls, ok1 := c.sliceLenBound(s.E); ok1 {
+		if lt, ok2 := c.sliceLenBound(t.E); ok2 {
+			_, exS := c.sliceLen[s.E]
+			_, exT := c.sliceLen[t.E]
+			if (exS || s.E == nilSlice) && (exT || t.E == nilSlice) {
+				c.sliceLen[rv] = strconv.Itoa(ls + lt)
+			} else {
+				c.intUB["(s-len "+rv+")"] = ls + lt
+			}
+		}
+	}
+	return Val{T: s.T, E: rv}
 }
 
 func (c *FnCtx) copySlice(st *State, dst, src Val, pos token.Pos) Val {
